@@ -1,26 +1,47 @@
 import Morlock.Proofs.ABTTSearch
+import Morlock.Proofs.ABChessTree
 import Morlock.Props.C03
 /-!
 # C11 — the transposition table is transparent
 
 All theorems are about `Model.alphabeta` / `Model.alphaBetaSearch` with a table of **any** size
 (`st.tt : TTState`, `Model/TT.lean`; any `minDepth`), without cancellation (`st.cancelAt = none`), for every
-abstract `Game`, exploration, leaf evaluation, depth and window, under these explicit hypotheses:
+abstract `Game`, exploration, leaf evaluation, depth and window.
 
-* `EvalOk g` — static evaluations are keys of non-NaN `float32`s (as in C13);
-* `HashOK g ex le` — **position-determined values**: positions with the same hash have the same value at
-  every depth, `∀ p q, g.hash p = g.hash q → ∀ d, V' g ex le d p = V' g ex le d q` (e.g. an injective hash,
-  `hashOK_of_injective`). `V'` is the negamax value `V` of C13 without the root exception (a drawn position
-  is worth 0 wherever it occurs);
-* `RootFree g rootPly` — **no draw can arise at the root ply**: `∀ p, g.isDraw p = true → g.ply p ≠ rootPly`;
-  then `V g ex le rootPly d p = V' g ex le d p` for all `d p` (`V_eq_V'`), i.e. the value is determined by
-  the position alone. `NoDraw g := ∀ p, g.isDraw p = false` ("no repetition / fifty-move draw inside the
-  tree") implies `RootFree g r` for every `r` (`NoDraw.rootFree`);
+## The region of a search
+
+The hypotheses about draws and hashes are **not** stated for the whole state type `P` (for `P = World`, the state
+type of the chess game `boardGame` / `materialGame`, junk worlds make such global statements false) but on a
+**region** `R : Nat → P → Prop`: `R n q` = "the search may visit `q` with remaining depth `n`". A region must be
+`Closed g ex R`: an explored legal move (`m ∈ g.moves p`, `ex.pick m`, `g.push p m = some c`) from a position of
+`R (n+1)` leads into `R n`; and it must contain the root at the depth of the search (`R d p`). The smallest such
+region is the search tree `Tree g ex p d` (`Tree g ex p d n q` iff `q` is reached from `p` by `d - n` explored legal
+moves; `tree_closed`, `tree_root`, `tree_least`); for a sequence of searches it is the union `Trees g ex l` of their
+trees. Hypotheses (definitions in `Morlock/Proofs/ABTTRef.lean`):
+
+* `EvalOk g` — static evaluations are keys of non-NaN `float32`s (as in C13); proved for the chess game
+  (`materialGame_evalOk`);
+* `HashOKOn g ex le R` — **two positions of the region with the same hash have the same reference value at every
+  remaining depth at which both occur**: `∀ n p q, R n p → R n q → g.hash p = g.hash q → V' g ex le n p = V' g ex le n q`.
+  `V'` is the negamax value `V` of C13 without the root exception (a drawn position is worth 0 wherever it occurs).
+  Checkable sufficient condition: the region is covered by a list of positions with pairwise distinct hashes
+  (`hashOKOn_of_list`; the list `treeList g ex p d` enumerates the tree);
+* `RootFreeOn g R rootPly` — **no drawn position of the region sits at the root ply**:
+  `∀ n p, R n p → g.isDraw p = true → g.ply p ≠ rootPly`; then `V g ex le rootPly n p = V' g ex le n p` inside the
+  region (`V_eq_V'_on`). Implied by `NoDrawOn g R := ∀ n p, R n p → g.isDraw p = false` ("no repetition / fifty-move /
+  material draw inside the tree"; checkable with `noDrawOn_of_list`);
 * `leafGrade le ≤ K`, `K + d ≤ 127` — mate distances fit an `int8` (as in C13); so depths are `< 65536` and
   the `uint16` depth field of an entry is exact;
-* `Sound g ex le st.tt` — the table the search starts with is sound: every exact entry (`bound = 0`) holds
-  the true value `V' … e.depth p` of every position `p` with the stored hash. A fresh table
-  (`TTState.new size minDepth`) is sound (`fresh_sound`), and so is "no table".
+* `SoundOn g ex le R st.tt` — the table the search starts with is sound on the region: every exact entry
+  (`bound = 0`) `e` holds the true value `V' … e.depth p` of every position `p` of the region at remaining depth
+  `e.depth` (`R e.depth p`) with the stored hash. A fresh table (`TTState.new size minDepth`) is sound
+  (`fresh_sound_on`), and so is "no table".
+
+The theorems `…_on` are the main statements. The old global forms (hypotheses `HashOK`, `RootFree`, `Sound`
+quantifying over all of `P`) are kept under the old names as corollaries (`R := Everywhere`); they are only useful
+for games without junk states (such as the toy game `tiny`). Non-vacuity **on the chess game** (`materialGame exZ`,
+worlds built with `newBoard`, real tables) is shown at the end (the region hypotheses are discharged by evaluating
+the finite tree, `Morlock/Proofs/ABChessTree.lean`).
 
 The proofs are in `Morlock/Proofs/ABTT*.lean`; they generalise the node contract of C13 (state invariant
 "no table, no cancellation") to "sound table, any cancellation instant" (`RecTT`, `alphabeta_recTT`).
@@ -30,19 +51,175 @@ open Morlock Morlock.Model Morlock.Model.Score Morlock.Spec Morlock.Proofs.AB
 open Morlock.Props.C09
 variable {P : Type}
 
+/-- A fresh table of any size is sound (on every region). -/
+theorem fresh_sound_on (g : Game P) (ex : Explore) (le : LeafEval) (R : Nat → P → Prop) (size : Nat) (minDepth : Int) :
+    SoundOn g ex le R (TTState.new size minDepth) :=
+  soundOn_new g ex le R size minDepth
+
 /-- A fresh table of any size is sound. -/
 theorem fresh_sound (g : Game P) (ex : Explore) (le : LeafEval) (size : Nat) (minDepth : Int) :
     Sound g ex le (TTState.new size minDepth) :=
   sound_new g ex le size minDepth
 
+/-! ## The theorems on a region -/
+
 /-- **C11 (soundness is preserved; the C13 contract holds with any sound table).** For every window of
-    graded-valid scores, a search over a sound table without cancellation
-    (1) leaves a sound table behind — *every exact entry the search stores is the true search value of that
-        position at that depth* (see `stored_exact`) — and still no cancellation;
+    graded-valid scores, a search of a position `p` of the region (`R d p`) over a table that is sound on the
+    region, without cancellation,
+    (1) leaves a table that is sound on the region — *every exact entry the search stores is the true search
+        value of that position at that depth* (see `stored_exact_on`) — and still no cancellation;
     (2) returns a graded-valid score that is `V` clipped to the window if the window is proper, and in any
         case the exact `V` or at least `alpha`;
     (3) returns a PV that is a path of explored legal moves of length `≤ d` (possibly cut short by table
         hits), and a principal variation whenever the returned score is exact. -/
+theorem sound_preserved_on (g : Game P) (ex : Explore) (le : LeafEval) (rootPly : Int) (hev : EvalOk g)
+    {R : Nat → P → Prop} (hcl : Closed g ex R)
+    (hh : HashOKOn g ex le R) (hrf : RootFreeOn g R rootPly) (K d : Nat) (hK : leafGrade le ≤ K) (hKd : K + d ≤ 127)
+    (p : P) (hp : R d p) (alpha beta : Score) (st : SState) (hs : SoundOn g ex le R st.tt) (hc : st.cancelAt = none)
+    (ha : okN (K + d) alpha) (hb : okN (K + d) beta) :
+    SoundOn g ex le R (alphabeta g ex le rootPly d p alpha beta st).2.2.tt ∧
+    (alphabeta g ex le rootPly d p alpha beta st).2.2.cancelAt = none ∧
+    okN (K + d) (alphabeta g ex le rootPly d p alpha beta st).1 ∧
+    ((alphabeta g ex le rootPly d p alpha beta st).1 = V g ex le rootPly d p ∨
+      rank alpha ≤ rank (alphabeta g ex le rootPly d p alpha beta st).1) ∧
+    (rank alpha < rank beta → Clip (rank alpha) (rank beta) (rank (V g ex le rootPly d p))
+      (rank (alphabeta g ex le rootPly d p alpha beta st).1)) ∧
+    Path g ex d p (alphabeta g ex le rootPly d p alpha beta st).2.1 ∧
+    ((alphabeta g ex le rootPly d p alpha beta st).1 = V g ex le rootPly d p →
+      Principal g ex le rootPly d p (alphabeta g ex le rootPly d p alpha beta st).2.1) := by
+  obtain ⟨h1, h2, h3⟩ := (alphabeta_recTT hev ex le hcl (fun _ _ h => h) hrf hh K hK d hKd).node p alpha beta st hp hs
+    (fun _ => ⟨ha, hb⟩)
+  have hc' : (alphabeta g ex le rootPly d p alpha beta st).2.2.cancelAt = none := by rw [h1.1]; exact hc
+  obtain ⟨q1, q2, q3, q4⟩ := h3 (live_of_none hc')
+  exact ⟨h2, hc', q1, q2, q3, q4.1, q4.2⟩
+
+/-- **C11 (stored entries).** After such a search every exact entry `e` of the table — those it found and
+    those it stored — satisfies `e.score = V g ex le rootPly e.depth q` for every position `q` of the region at
+    remaining depth `e.depth` with `g.hash q = e.hash`: the true search value of that position at that depth. -/
+theorem stored_exact_on (g : Game P) (ex : Explore) (le : LeafEval) (rootPly : Int) (hev : EvalOk g)
+    {R : Nat → P → Prop} (hcl : Closed g ex R)
+    (hh : HashOKOn g ex le R) (hrf : RootFreeOn g R rootPly) (K d : Nat) (hK : leafGrade le ≤ K) (hKd : K + d ≤ 127)
+    (p : P) (hp : R d p) (alpha beta : Score) (st : SState) (hs : SoundOn g ex le R st.tt) (hc : st.cancelAt = none)
+    (ha : okN (K + d) alpha) (hb : okN (K + d) beta) :
+    ∀ e, some e ∈ (alphabeta g ex le rootPly d p alpha beta st).2.2.tt.slots → e.bound = 0 →
+      ∀ q, R e.depth q → g.hash q = e.hash → e.score = V g ex le rootPly e.depth q := by
+  intro e he hb0 q hqR hq
+  rw [V_eq_V'_on ex le hcl hrf e.depth q hqR]
+  exact (sound_preserved_on g ex le rootPly hev hcl hh hrf K d hK hKd p hp alpha beta st hs hc ha hb).1 e he hb0 q
+    hqR hq
+
+/-- **C11 (transparency).** At the full window the search over any table that is sound on the region returns
+    exactly `V` — the same root score as the search without a table (`st0`: no table, no cancellation;
+    `C03.exact`). -/
+theorem transparent_on (g : Game P) (ex : Explore) (le : LeafEval) (rootPly : Int) (hev : EvalOk g)
+    {R : Nat → P → Prop} (hcl : Closed g ex R)
+    (hh : HashOKOn g ex le R) (hrf : RootFreeOn g R rootPly) (d : Nat) (hd : leafGrade le + d ≤ 127)
+    (p : P) (hp : R d p) (st : SState) (hs : SoundOn g ex le R st.tt) (hc : st.cancelAt = none)
+    (st0 : SState) (h0 : st0.tt.slots.size = 0) (hc0 : st0.cancelAt = none) :
+    (alphabeta g ex le rootPly d p negInfScore infScore st).1 = V g ex le rootPly d p ∧
+    (alphabeta g ex le rootPly d p negInfScore infScore st).1 =
+      (alphabeta g ex le rootPly d p negInfScore infScore st0).1 := by
+  obtain ⟨h1, _, h3⟩ := alphabeta_tt_full hev ex le hcl (fun _ _ h => h) hrf hh d hd p hp st hs
+  have hc' : (alphabeta g ex le rootPly d p negInfScore infScore st).2.2.cancelAt = none := by
+    rw [h1.1]; exact hc
+  have := (h3 (live_of_none hc')).1
+  exact ⟨this, by rw [this, C03.exact g ex le rootPly hev d hd p st0 h0 hc0]⟩
+
+/-- **C11 (the PV still begins with a best legal move).** At the full window over any table that is sound on the
+    region the returned PV is a principal variation (every move of it is an explored legal move attaining the value
+    of the position it is played in; table hits below the root may cut it short). In particular, if it is
+    `m :: rest` then `m` leads to a child `c` with `lift (V … d' c) = V … (d' + 1) p`. And at the root ply
+    (where no table cut is taken) it is non-empty whenever some move is legal and the value is not `negInf`
+    (i.e. some explored legal move is better than being mated at once). -/
+theorem pv_first_best_on (g : Game P) (ex : Explore) (le : LeafEval) (rootPly : Int) (hev : EvalOk g)
+    {R : Nat → P → Prop} (hcl : Closed g ex R)
+    (hh : HashOKOn g ex le R) (hrf : RootFreeOn g R rootPly) (d : Nat) (hd : leafGrade le + d ≤ 127)
+    (p : P) (hp : R d p) (st : SState) (hs : SoundOn g ex le R st.tt) (hc : st.cancelAt = none) :
+    Principal g ex le rootPly d p (alphabeta g ex le rootPly d p negInfScore infScore st).2.1 ∧
+    (∀ d' m rest, d = d' + 1 → (alphabeta g ex le rootPly d p negInfScore infScore st).2.1 = m :: rest →
+      ∃ c, g.push p m = some c ∧ ex.pick m = true ∧
+        lift (V g ex le rootPly d' c) = V g ex le rootPly (d' + 1) p) ∧
+    (∀ d', d = d' + 1 → g.ply p = rootPly → legalAny g p (g.moves p) = true →
+      V g ex le rootPly d p ≠ negInfScore →
+      (alphabeta g ex le rootPly d p negInfScore infScore st).2.1 ≠ []) := by
+  obtain ⟨h1, _, h3⟩ := alphabeta_tt_full hev ex le hcl (fun _ _ h => h) hrf hh d hd p hp st hs
+  have hc' : (alphabeta g ex le rootPly d p negInfScore infScore st).2.2.cancelAt = none := by
+    rw [h1.1]; exact hc
+  obtain ⟨hex, hprin⟩ := h3 (live_of_none hc')
+  refine ⟨hprin, ?_, ?_⟩
+  · intro d' m rest hdd hpv
+    subst hdd
+    rw [hpv] at hprin
+    simp only [Principal] at hprin
+    obtain ⟨c, e1, e2, e3, _⟩ := hprin
+    exact ⟨c, e1, e2, e3⟩
+  · intro d' hdd hroot hl hne hnil
+    subst hdd
+    have := alphabeta_root_pv hev ex le hcl (fun _ _ h => h) hrf hh (leafGrade le) (Nat.le_refl _) d' (by omega) p hp
+      negInfScore infScore st hs (okN_mono okN_negInf (by omega)) (okN_mono okN_inf (by omega)) hroot hl
+      (live_of_none hc') hnil
+    rw [hex] at this
+    exact hne this
+
+/-- **C11 (`AlphaBeta.Search` over a table).** Started without a window in the context, over any table that is
+    sound on the region and without cancellation, `alphaBetaSearch` reports the negamax value of the root and a
+    principal variation (non-empty for `d ≥ 1` if a move is legal and the value is not `negInf`), and leaves a table
+    that is sound on the region and no cancellation behind. -/
+theorem search_exact_on (g : Game P) (ex : Explore) (le : LeafEval) (hev : EvalOk g)
+    {R : Nat → P → Prop} (hcl : Closed g ex R) (hh : HashOKOn g ex le R)
+    (p : P) (hrf : RootFreeOn g R (g.ply p)) (d : Nat) (hd : leafGrade le + d ≤ 127) (hp : R d p)
+    (st : SState) (hs : SoundOn g ex le R st.tt) (hc : st.cancelAt = none) :
+    SoundOn g ex le R (alphaBetaSearch g ex le p d invalidScore invalidScore st).2.tt ∧
+    (alphaBetaSearch g ex le p d invalidScore invalidScore st).2.cancelAt = none ∧
+    ∃ n pv, (alphaBetaSearch g ex le p d invalidScore invalidScore st).1 =
+        some ⟨n, V g ex le (g.ply p) d p, pv⟩ ∧
+      Principal g ex le (g.ply p) d p pv ∧
+      (∀ d', d = d' + 1 → legalAny g p (g.moves p) = true → V g ex le (g.ply p) d p ≠ negInfScore → pv ≠ []) := by
+  obtain ⟨h1, h2, _, h4⟩ := alphaBetaSearch_tt hev ex le hcl (fun _ _ h => h) hh p hrf d hd hp st hs
+  have hc' : (alphaBetaSearch g ex le p d invalidScore invalidScore st).2.cancelAt = none := by
+    rw [h1.1]; exact hc
+  exact ⟨h2, hc', h4 (live_of_none hc')⟩
+
+/-- **C11 (first and every later search).** Any sequence of searches — of the same or of different
+    (e.g. successive) root positions of the same `Game`, at any depths — that thread one table
+    (`searchSeq` feeds the final state of each `alphaBetaSearch` to the next): every one of them returns the
+    negamax value `V` of its own root at its own depth, exactly what the table-free search returns
+    (`C03.search_exact`); the table is sound at the end. The region `U` on which the table is sound and hashes are
+    faithful contains the trees of all the searches; the root-ply condition is needed on each search's own tree. -/
+theorem sequence_on (g : Game P) (ex : Explore) (le : LeafEval) (hev : EvalOk g) {U : Nat → P → Prop}
+    (hh : HashOKOn g ex le U)
+    (l : List (P × Nat)) (st : SState) (hs : SoundOn g ex le U st.tt) (hc : st.cancelAt = none)
+    (hall : ∀ pd ∈ l, (∀ n q, Tree g ex pd.1 pd.2 n q → U n q) ∧
+      RootFreeOn g (Tree g ex pd.1 pd.2) (g.ply pd.1) ∧ leafGrade le + pd.2 ≤ 127) :
+    (searchSeq g ex le l st).1.map (fun o => o.map (·.score)) =
+      l.map (fun pd => some (V g ex le (g.ply pd.1) pd.2 pd.1)) ∧
+    SoundOn g ex le U (searchSeq g ex le l st).2.tt ∧ (searchSeq g ex le l st).2.cancelAt = none :=
+  searchSeq_tt hev ex le hh l st hs hc hall
+
+/-- `sequence_on` for the union of the trees of the searches, when no position of that union is drawn. -/
+theorem sequence_trees (g : Game P) (ex : Explore) (le : LeafEval) (hev : EvalOk g)
+    (l : List (P × Nat)) (hh : HashOKOn g ex le (Trees g ex l)) (hnd : NoDrawOn g (Trees g ex l))
+    (st : SState) (hs : SoundOn g ex le (Trees g ex l) st.tt) (hc : st.cancelAt = none)
+    (hall : ∀ pd ∈ l, leafGrade le + pd.2 ≤ 127) :
+    (searchSeq g ex le l st).1.map (fun o => o.map (·.score)) =
+      l.map (fun pd => some (V g ex le (g.ply pd.1) pd.2 pd.1)) ∧
+    SoundOn g ex le (Trees g ex l) (searchSeq g ex le l st).2.tt :=
+  have h := searchSeq_tt hev ex le hh l st hs hc (fun pd hpd =>
+    ⟨fun n q hq => ⟨pd, hpd, hq⟩, (hnd.mono (fun n q hq => ⟨pd, hpd, hq⟩)).rootFreeOn _, hall pd hpd⟩)
+  ⟨h.1, h.2.1⟩
+
+/-- Under `RootFreeOn` the value is determined by the position: the `rootPly` argument of `V` is irrelevant inside
+    the region. -/
+theorem V_root_irrelevant_on (g : Game P) (ex : Explore) (le : LeafEval) (r r' : Int) {R : Nat → P → Prop}
+    (hcl : Closed g ex R) (h : RootFreeOn g R r) (h' : RootFreeOn g R r') (d : Nat) (p : P) (hp : R d p) :
+    V g ex le r d p = V g ex le r' d p := by
+  rw [V_eq_V'_on ex le hcl h d p hp, V_eq_V'_on ex le hcl h' d p hp]
+
+/-! ## The global forms (corollaries: `R := Everywhere`)
+
+`HashOK`, `RootFree`, `NoDraw`, `Sound` quantify over the whole state type; for `P = World` they are false, so these
+forms say nothing about the chess game - use the `…_on` forms there. -/
+
 theorem sound_preserved (g : Game P) (ex : Explore) (le : LeafEval) (rootPly : Int) (hev : EvalOk g)
     (hh : HashOK g ex le) (hrf : RootFree g rootPly) (K d : Nat) (hK : leafGrade le ≤ K) (hKd : K + d ≤ 127)
     (p : P) (alpha beta : Score) (st : SState) (hs : Sound g ex le st.tt) (hc : st.cancelAt = none)
@@ -57,46 +234,29 @@ theorem sound_preserved (g : Game P) (ex : Explore) (le : LeafEval) (rootPly : I
     Path g ex d p (alphabeta g ex le rootPly d p alpha beta st).2.1 ∧
     ((alphabeta g ex le rootPly d p alpha beta st).1 = V g ex le rootPly d p →
       Principal g ex le rootPly d p (alphabeta g ex le rootPly d p alpha beta st).2.1) := by
-  obtain ⟨h1, h2, h3⟩ := (alphabeta_recTT hev ex le hrf hh K hK d hKd).node p alpha beta st hs
-    (fun _ => ⟨ha, hb⟩)
-  have hc' : (alphabeta g ex le rootPly d p alpha beta st).2.2.cancelAt = none := by rw [h1.1]; exact hc
-  obtain ⟨q1, q2, q3, q4⟩ := h3 (live_of_none hc')
-  exact ⟨h2, hc', q1, q2, q3, q4.1, q4.2⟩
+  obtain ⟨h1, h2⟩ := sound_preserved_on g ex le rootPly hev (closed_everywhere g ex) (hh.on _) (hrf.on _) K d hK hKd
+    p trivial alpha beta st (sound_iff_on.1 hs) hc ha hb
+  exact ⟨sound_iff_on.2 h1, h2⟩
 
-/-- **C11 (stored entries).** After such a search every exact entry `e` of the table — those it found and
-    those it stored — satisfies `e.score = V g ex le rootPly e.depth q` for every position `q` with
-    `g.hash q = e.hash`: the true search value of that position at that depth. -/
 theorem stored_exact (g : Game P) (ex : Explore) (le : LeafEval) (rootPly : Int) (hev : EvalOk g)
     (hh : HashOK g ex le) (hrf : RootFree g rootPly) (K d : Nat) (hK : leafGrade le ≤ K) (hKd : K + d ≤ 127)
     (p : P) (alpha beta : Score) (st : SState) (hs : Sound g ex le st.tt) (hc : st.cancelAt = none)
     (ha : okN (K + d) alpha) (hb : okN (K + d) beta) :
     ∀ e, some e ∈ (alphabeta g ex le rootPly d p alpha beta st).2.2.tt.slots → e.bound = 0 →
-      ∀ q, g.hash q = e.hash → e.score = V g ex le rootPly e.depth q := by
-  intro e he hb0 q hq
-  rw [V_eq_V' ex le hrf]
-  exact (sound_preserved g ex le rootPly hev hh hrf K d hK hKd p alpha beta st hs hc ha hb).1 e he hb0 q hq
+      ∀ q, g.hash q = e.hash → e.score = V g ex le rootPly e.depth q :=
+  fun e he hb0 q hq => stored_exact_on g ex le rootPly hev (closed_everywhere g ex) (hh.on _) (hrf.on _) K d hK hKd
+    p trivial alpha beta st (sound_iff_on.1 hs) hc ha hb e he hb0 q trivial hq
 
-/-- **C11 (transparency).** At the full window the search over any sound table returns exactly `V` — the
-    same root score as the search without a table (`st0`: no table, no cancellation; `C03.exact`). -/
 theorem transparent (g : Game P) (ex : Explore) (le : LeafEval) (rootPly : Int) (hev : EvalOk g)
     (hh : HashOK g ex le) (hrf : RootFree g rootPly) (d : Nat) (hd : leafGrade le + d ≤ 127)
     (p : P) (st : SState) (hs : Sound g ex le st.tt) (hc : st.cancelAt = none)
     (st0 : SState) (h0 : st0.tt.slots.size = 0) (hc0 : st0.cancelAt = none) :
     (alphabeta g ex le rootPly d p negInfScore infScore st).1 = V g ex le rootPly d p ∧
     (alphabeta g ex le rootPly d p negInfScore infScore st).1 =
-      (alphabeta g ex le rootPly d p negInfScore infScore st0).1 := by
-  obtain ⟨h1, _, h3⟩ := alphabeta_tt_full hev ex le hrf hh d hd p st hs
-  have hc' : (alphabeta g ex le rootPly d p negInfScore infScore st).2.2.cancelAt = none := by
-    rw [h1.1]; exact hc
-  have := (h3 (live_of_none hc')).1
-  exact ⟨this, by rw [this, C03.exact g ex le rootPly hev d hd p st0 h0 hc0]⟩
+      (alphabeta g ex le rootPly d p negInfScore infScore st0).1 :=
+  transparent_on g ex le rootPly hev (closed_everywhere g ex) (hh.on _) (hrf.on _) d hd p trivial st
+    (sound_iff_on.1 hs) hc st0 h0 hc0
 
-/-- **C11 (the PV still begins with a best legal move).** At the full window over any sound table the
-    returned PV is a principal variation (every move of it is an explored legal move attaining the value of
-    the position it is played in; table hits below the root may cut it short). In particular, if it is
-    `m :: rest` then `m` leads to a child `c` with `lift (V … d' c) = V … (d' + 1) p`. And at the root ply
-    (where no table cut is taken) it is non-empty whenever some move is legal and the value is not `negInf`
-    (i.e. some explored legal move is better than being mated at once). -/
 theorem pv_first_best (g : Game P) (ex : Explore) (le : LeafEval) (rootPly : Int) (hev : EvalOk g)
     (hh : HashOK g ex le) (hrf : RootFree g rootPly) (d : Nat) (hd : leafGrade le + d ≤ 127)
     (p : P) (st : SState) (hs : Sound g ex le st.tt) (hc : st.cancelAt = none) :
@@ -106,30 +266,10 @@ theorem pv_first_best (g : Game P) (ex : Explore) (le : LeafEval) (rootPly : Int
         lift (V g ex le rootPly d' c) = V g ex le rootPly (d' + 1) p) ∧
     (∀ d', d = d' + 1 → g.ply p = rootPly → legalAny g p (g.moves p) = true →
       V g ex le rootPly d p ≠ negInfScore →
-      (alphabeta g ex le rootPly d p negInfScore infScore st).2.1 ≠ []) := by
-  obtain ⟨h1, _, h3⟩ := alphabeta_tt_full hev ex le hrf hh d hd p st hs
-  have hc' : (alphabeta g ex le rootPly d p negInfScore infScore st).2.2.cancelAt = none := by
-    rw [h1.1]; exact hc
-  obtain ⟨hex, hprin⟩ := h3 (live_of_none hc')
-  refine ⟨hprin, ?_, ?_⟩
-  · intro d' m rest hdd hpv
-    subst hdd
-    rw [hpv] at hprin
-    simp only [Principal] at hprin
-    obtain ⟨c, e1, e2, e3, _⟩ := hprin
-    exact ⟨c, e1, e2, e3⟩
-  · intro d' hdd hroot hl hne hnil
-    subst hdd
-    have := alphabeta_root_pv hev ex le hrf hh (leafGrade le) (Nat.le_refl _) d' (by omega) p negInfScore
-      infScore st hs (okN_mono okN_negInf (by omega)) (okN_mono okN_inf (by omega)) hroot hl
-      (live_of_none hc') hnil
-    rw [hex] at this
-    exact hne this
+      (alphabeta g ex le rootPly d p negInfScore infScore st).2.1 ≠ []) :=
+  pv_first_best_on g ex le rootPly hev (closed_everywhere g ex) (hh.on _) (hrf.on _) d hd p trivial st
+    (sound_iff_on.1 hs) hc
 
-/-- **C11 (`AlphaBeta.Search` over a table).** Started without a window in the context, over any sound
-    table and without cancellation, `alphaBetaSearch` reports the negamax value of the root and a principal
-    variation (non-empty for `d ≥ 1` if a move is legal and the value is not `negInf`), and leaves a sound
-    table and no cancellation behind. -/
 theorem search_exact (g : Game P) (ex : Explore) (le : LeafEval) (hev : EvalOk g) (hh : HashOK g ex le)
     (p : P) (hrf : RootFree g (g.ply p)) (d : Nat) (hd : leafGrade le + d ≤ 127)
     (st : SState) (hs : Sound g ex le st.tt) (hc : st.cancelAt = none) :
@@ -139,23 +279,19 @@ theorem search_exact (g : Game P) (ex : Explore) (le : LeafEval) (hev : EvalOk g
         some ⟨n, V g ex le (g.ply p) d p, pv⟩ ∧
       Principal g ex le (g.ply p) d p pv ∧
       (∀ d', d = d' + 1 → legalAny g p (g.moves p) = true → V g ex le (g.ply p) d p ≠ negInfScore → pv ≠ []) := by
-  obtain ⟨h1, h2, _, h4⟩ := alphaBetaSearch_tt hev ex le hh p hrf d hd st hs
-  have hc' : (alphaBetaSearch g ex le p d invalidScore invalidScore st).2.cancelAt = none := by
-    rw [h1.1]; exact hc
-  exact ⟨h2, hc', h4 (live_of_none hc')⟩
+  obtain ⟨h1, h2⟩ := search_exact_on g ex le hev (closed_everywhere g ex) (hh.on _) p (hrf.on _) d hd trivial st
+    (sound_iff_on.1 hs) hc
+  exact ⟨sound_iff_on.2 h1, h2⟩
 
-/-- **C11 (first and every later search).** Any sequence of searches — of the same or of different
-    (e.g. successive) root positions of the same `Game`, at any depths — that thread one table
-    (`searchSeq` feeds the final state of each `alphaBetaSearch` to the next): every one of them returns the
-    negamax value `V` of its own root at its own depth, exactly what the table-free search returns
-    (`C03.search_exact`); the table is sound at the end. -/
 theorem sequence (g : Game P) (ex : Explore) (le : LeafEval) (hev : EvalOk g) (hh : HashOK g ex le)
     (l : List (P × Nat)) (st : SState) (hs : Sound g ex le st.tt) (hc : st.cancelAt = none)
     (hall : ∀ pd ∈ l, RootFree g (g.ply pd.1) ∧ leafGrade le + pd.2 ≤ 127) :
     (searchSeq g ex le l st).1.map (fun o => o.map (·.score)) =
       l.map (fun pd => some (V g ex le (g.ply pd.1) pd.2 pd.1)) ∧
-    Sound g ex le (searchSeq g ex le l st).2.tt ∧ (searchSeq g ex le l st).2.cancelAt = none :=
-  searchSeq_tt hev ex le hh l st hs hc hall
+    Sound g ex le (searchSeq g ex le l st).2.tt ∧ (searchSeq g ex le l st).2.cancelAt = none := by
+  obtain ⟨h1, h2, h3⟩ := sequence_on g ex le hev (hh.on Everywhere) l st (sound_iff_on.1 hs) hc
+    (fun pd hpd => ⟨fun _ _ _ => trivial, (hall pd hpd).1.on _, (hall pd hpd).2⟩)
+  exact ⟨h1, sound_iff_on.2 h2, h3⟩
 
 /-- `sequence` when no draw can be claimed anywhere in the game. -/
 theorem sequence_noDraw (g : Game P) (ex : Explore) (le : LeafEval) (hev : EvalOk g) (hh : HashOK g ex le)
@@ -163,7 +299,7 @@ theorem sequence_noDraw (g : Game P) (ex : Explore) (le : LeafEval) (hev : EvalO
     (hall : ∀ pd ∈ l, leafGrade le + pd.2 ≤ 127) :
     (searchSeq g ex le l st).1.map (fun o => o.map (·.score)) =
       l.map (fun pd => some (V g ex le (g.ply pd.1) pd.2 pd.1)) :=
-  (searchSeq_tt hev ex le hh l st hs hc (fun pd hpd => ⟨hnd.rootFree _, hall pd hpd⟩)).1
+  (sequence g ex le hev hh l st hs hc (fun pd hpd => ⟨hnd.rootFree _, hall pd hpd⟩)).1
 
 /-- Under `RootFree` the value is determined by the position: the `rootPly` argument of `V` is irrelevant. -/
 theorem V_root_irrelevant (g : Game P) (ex : Explore) (le : LeafEval) (r r' : Int)
@@ -221,5 +357,128 @@ example :
     run3.1.map (fun r => (r.nodes, r.score, r.pv)) = some (3, heuristicScore (-15), [mv 0]) ∧
     V tiny allMoves .static 0 2 0 = heuristicScore 15 ∧ V tiny allMoves .static 1 1 2 = heuristicScore (-15) := by
   decide
+
+-- instances of the global forms on the tiny game (it has no junk states): `sound_preserved`, `stored_exact`,
+-- `transparent`, `pv_first_best`, `search_exact`
+open C13 in
+example : Sound tiny allMoves .static
+      (alphabeta tiny allMoves .static 0 2 0 (heuristicScore 0) (heuristicScore 50) st64).2.2.tt ∧
+    ∀ e, some e ∈ (alphabeta tiny allMoves .static 0 2 0 (heuristicScore 0) (heuristicScore 50) st64).2.2.tt.slots →
+      e.bound = 0 → ∀ q, tiny.hash q = e.hash → e.score = V tiny allMoves .static 0 e.depth q :=
+  ⟨(sound_preserved tiny allMoves .static 0 tiny_evalOk (tiny_hashOK _) (tiny_rootFree 0 (by decide)) 0 2 (by decide)
+      (by decide) 0 _ _ st64 (fresh_sound _ _ _ 64 0) rfl (by decide) (by decide)).1,
+   stored_exact tiny allMoves .static 0 tiny_evalOk (tiny_hashOK _) (tiny_rootFree 0 (by decide)) 0 2 (by decide)
+      (by decide) 0 _ _ st64 (fresh_sound _ _ _ 64 0) rfl (by decide) (by decide)⟩
+
+open C13 in
+example : (alphabeta tiny allMoves .static 0 2 0 negInfScore infScore run1.2).1 = V tiny allMoves .static 0 2 0 ∧
+    (alphabeta tiny allMoves .static 0 2 0 negInfScore infScore run1.2).1 =
+      (alphabeta tiny allMoves .static 0 2 0 negInfScore infScore {}).1 :=
+  transparent tiny allMoves .static 0 tiny_evalOk (tiny_hashOK _) (tiny_rootFree 0 (by decide)) 2 (by decide) 0 run1.2
+    (search_exact tiny allMoves .static tiny_evalOk (tiny_hashOK _) 0 (tiny_rootFree _ (by decide)) 2 (by decide) st64
+      (fresh_sound _ _ _ 64 0) rfl).1
+    (search_exact tiny allMoves .static tiny_evalOk (tiny_hashOK _) 0 (tiny_rootFree _ (by decide)) 2 (by decide) st64
+      (fresh_sound _ _ _ 64 0) rfl).2.1 {} rfl rfl
+
+open C13 in
+example : Principal tiny allMoves .static 0 2 0 (alphabeta tiny allMoves .static 0 2 0 negInfScore infScore st64).2.1 :=
+  (pv_first_best tiny allMoves .static 0 tiny_evalOk (tiny_hashOK _) (tiny_rootFree 0 (by decide)) 2 (by decide) 0 st64
+    (fresh_sound _ _ _ 64 0) rfl).1
+
+/-! ## Non-vacuity on the chess game: `materialGame exZ` on worlds built by `newBoard`, real tables
+
+`gX = materialGame exZ`; `wS` = K + N v K + N (White to move), `w1` = `wS` after 1. Nf3, `wE` =
+`r3k2r/1P6/8/3pP3/8/8/8/R3K2R w KQkq d6`; `st4k` = an empty table of 128 slots; `capX` = the captures-only
+exploration of the quiescence search (`Morlock/Proofs/ABChessTree.lean`). The region is the search tree itself. -/
+
+section Chess
+
+/-- All hypotheses of the `…_on` theorems hold for the search of `wS` to depth 2 (every leaf evaluation). -/
+example (le : LeafEval) : EvalOk gX ∧ Closed gX fullExploration (Tree gX fullExploration wS 2) ∧
+    Tree gX fullExploration wS 2 2 wS ∧ HashOKOn gX fullExploration le (Tree gX fullExploration wS 2) ∧
+    RootFreeOn gX (Tree gX fullExploration wS 2) (gX.ply wS) ∧
+    SoundOn gX fullExploration le (Tree gX fullExploration wS 2) st4k.tt ∧ st4k.tt.slots.size = 128 :=
+  ⟨gX_evalOk, tree_closed _ _ _ _, tree_root _ _ _ _, wS_hashOK le, wS_noDraw.rootFreeOn _,
+    fresh_sound_on _ _ _ _ 4096 0, by decide +kernel⟩
+
+/-- **On the chess game the root-ply condition holds structurally**: for every Zobrist table, evaluation and
+    exploration, the tree of every search whose root satisfies the play invariant `Inv` (C13 `chess_enough_fuel`)
+    and is not drawn satisfies `RootFreeOn` for the root's ply - the ply grows with every move. So on the chess game the
+    only hypothesis of C11 / C12 that is not discharged once and for all is `HashOKOn` (a property of the Zobrist
+    table on the tree: no two positions of the tree at the same remaining depth with equal hashes and different values). -/
+theorem chess_rootFreeOn (z : ZTable) (ev : Position → Model.Color → Int) (ex : Explore) {w : World} (h : Inv w)
+    (hd : (boardGame z ev).isDraw w = false) (d : Nat) :
+    RootFreeOn (boardGame z ev) (Tree (boardGame z ev) ex w d) ((boardGame z ev).ply w) :=
+  boardGame_rootFreeOn z ev ex h hd d
+
+example (d : Nat) : RootFreeOn gX (Tree gX fullExploration wE d) (gX.ply wE) :=
+  chess_rootFreeOn Proofs.exZ (fun pos turn => f32keyOfInt (materialPawns pos turn)) fullExploration wE_inv wE_notDraw d
+
+/-- `sound_preserved_on` / `stored_exact_on`: window (mated in 2, +5), static leaves. -/
+example :
+    SoundOn gX fullExploration .static (Tree gX fullExploration wS 2)
+      (alphabeta gX fullExploration .static 1 2 wS (mateInXScore (-2)) (heuristicScore 5) st4k).2.2.tt ∧
+    Clip (rank (mateInXScore (-2))) (rank (heuristicScore 5)) (rank (V gX fullExploration .static 1 2 wS))
+      (rank (alphabeta gX fullExploration .static 1 2 wS (mateInXScore (-2)) (heuristicScore 5) st4k).1) ∧
+    ∀ e, some e ∈ (alphabeta gX fullExploration .static 1 2 wS (mateInXScore (-2)) (heuristicScore 5) st4k).2.2.tt.slots →
+      e.bound = 0 → ∀ q, Tree gX fullExploration wS 2 e.depth q → gX.hash q = e.hash →
+        e.score = V gX fullExploration .static 1 e.depth q :=
+  have h := sound_preserved_on gX fullExploration .static 1 gX_evalOk (tree_closed _ _ _ _) (wS_hashOK _)
+    (wS_noDraw.rootFreeOn 1) 0 2 (by decide) (by decide) wS (tree_root _ _ _ _) (mateInXScore (-2)) (heuristicScore 5)
+    st4k (fresh_sound_on _ _ _ _ 4096 0) rfl (by decide) (by decide)
+  ⟨h.1, h.2.2.2.2.1 (by decide),
+   stored_exact_on gX fullExploration .static 1 gX_evalOk (tree_closed _ _ _ _) (wS_hashOK _)
+    (wS_noDraw.rootFreeOn 1) 0 2 (by decide) (by decide) wS (tree_root _ _ _ _) (mateInXScore (-2)) (heuristicScore 5)
+    st4k (fresh_sound_on _ _ _ _ 4096 0) rfl (by decide) (by decide)⟩
+
+/-- `transparent_on`, with quiescence leaves (the driver's `full-quiet` configuration: captures only, fuel 64). -/
+example :
+    (alphabeta gX fullExploration (.quiescence capX 64) 1 2 wS negInfScore infScore st4k).1 =
+      V gX fullExploration (.quiescence capX 64) 1 2 wS ∧
+    (alphabeta gX fullExploration (.quiescence capX 64) 1 2 wS negInfScore infScore st4k).1 =
+      (alphabeta gX fullExploration (.quiescence capX 64) 1 2 wS negInfScore infScore {}).1 :=
+  transparent_on gX fullExploration _ 1 gX_evalOk (tree_closed _ _ _ _) (wS_hashOK _) (wS_noDraw.rootFreeOn 1) 2
+    (by decide) wS (tree_root _ _ _ _) st4k (fresh_sound_on _ _ _ _ 4096 0) rfl {} rfl rfl
+
+set_option maxRecDepth 100000 in
+/-- `pv_first_best_on`: the PV is principal, and not empty (the value of `wS` at depth 2 is 0, not `negInf`). -/
+example :
+    Principal gX fullExploration .static 1 2 wS
+      (alphabeta gX fullExploration .static 1 2 wS negInfScore infScore st4k).2.1 ∧
+    (alphabeta gX fullExploration .static 1 2 wS negInfScore infScore st4k).2.1 ≠ [] :=
+  have h := pv_first_best_on gX fullExploration .static 1 gX_evalOk (tree_closed _ _ _ _) (wS_hashOK _)
+    (wS_noDraw.rootFreeOn 1) 2 (by decide) wS (tree_root _ _ _ _) st4k (fresh_sound_on _ _ _ _ 4096 0) rfl
+  ⟨h.1, h.2.2 1 rfl wS_ply wS_legal (by decide +kernel)⟩
+
+/-- `search_exact_on` on `wE` (depth 1, quiescence leaves): castling, en passant, promotions and captures occur. -/
+example : ∃ n pv,
+    (alphaBetaSearch gX fullExploration (.quiescence capX 64) wE 1 invalidScore invalidScore st4k).1 =
+      some ⟨n, V gX fullExploration (.quiescence capX 64) (gX.ply wE) 1 wE, pv⟩ ∧
+    Principal gX fullExploration (.quiescence capX 64) (gX.ply wE) 1 wE pv :=
+  have h := (search_exact_on gX fullExploration (.quiescence capX 64) gX_evalOk (tree_closed _ _ wE 1) (wE_hashOK _) wE
+    (wE_noDraw.rootFreeOn _) 1 (by decide) (tree_root _ _ _ _) st4k (fresh_sound_on _ _ _ _ 4096 0) rfl).2.2
+  let ⟨n, pv, h1, h2, _⟩ := h
+  ⟨n, pv, h1, h2⟩
+
+/-- `sequence_trees`: iterative deepening on `wS` (depths 1, 2), the depth-2 search repeated, then a search of the
+    successor position `w1`, all threading one table: every score is the reference value. -/
+example : (searchSeq gX fullExploration .static seqX st4k).1.map (fun o => o.map (·.score)) =
+    [some (V gX fullExploration .static (gX.ply wS) 1 wS), some (V gX fullExploration .static (gX.ply wS) 2 wS),
+     some (V gX fullExploration .static (gX.ply wS) 2 wS), some (V gX fullExploration .static (gX.ply w1) 1 w1)] :=
+  (sequence_trees gX fullExploration .static gX_evalOk seqX (seqX_hashOK _) seqX_noDraw st4k
+    (fresh_sound_on _ _ _ _ 4096 0) rfl (by
+      intro pd hpd
+      simp only [seqX, List.mem_cons, List.mem_nil_iff, or_false] at hpd
+      rcases hpd with rfl | rfl | rfl | rfl <;> decide)).1
+
+set_option maxRecDepth 100000 in
+/-- What actually happens in that sequence: the table is written (5 slots used) and read - the repeated depth-2
+    search needs 15 nodes instead of 24 and its PV is cut short by a table hit below the root. -/
+example : (searchSeq gX fullExploration .static seqX st4k).1.map (fun o => o.map fun r => (r.nodes, r.score, r.pv.length)) =
+      [some (9, zeroScore, 1), some (24, zeroScore, 2), some (15, zeroScore, 1), some (9, zeroScore, 1)] ∧
+    (searchSeq gX fullExploration .static seqX st4k).2.tt.used = 5 := by
+  decide +kernel
+
+end Chess
 
 end Morlock.Props.C11
